@@ -123,6 +123,13 @@ func vpModelGivePeersProcess(m *GivePeersMessage, d daemoner)   { vpProcessed++ 
 func vpModelGetBlocksProcess(m *GetBlocksMessage, d daemoner)   { vpProcessed++ }
 func vpModelGiveBlocksProcess(m *GiveBlocksMessage, d daemoner) { vpProcessed++ }
 func vpModelAnnTxnsProcess(m *AnnounceTxnsMessage, d daemoner)  { vpProcessed++ }
+func vpModelGetPeersProcess(m *GetPeersMessage, d daemoner)     { vpProcessed++ }
+func vpModelPingProcess(m *PingMessage, d daemoner)             { vpProcessed++ }
+func vpModelAnnBlocksProcess(m *AnnounceBlocksMessage, d daemoner) {
+	vpProcessed++
+}
+func vpModelGetTxnsProcess(m *GetTxnsMessage, d daemoner)   { vpProcessed++ }
+func vpModelGiveTxnsProcess(m *GiveTxnsMessage, d daemoner) { vpProcessed++ }
 func vpModelDisconnect(dm *Daemon, addr string, r error) error {
 	vpDisconnected++
 	vpDisconnectReason = r
@@ -130,7 +137,7 @@ func vpModelDisconnect(dm *Daemon, addr string, r error) error {
 }
 
 //vp:prop C25
-//vp:bounds one connection in each state (pending, connected, introduced); one message of each gate class (introduction, disconnect, peer list, three protocol messages, a probe of another type); matching or foreign connection id; known or unknown address
+//vp:bounds one connection in each state (pending, connected, introduced); one message of each of the 11 processed wire message types and a probe of another type; matching or foreign connection id; known or unknown address
 //vp:assume message handlers and Daemon.Disconnect are replaced by recorders (the gate, not the handlers, is the subject)
 //vp:rule (*github.com/skycoin/skycoin/src/daemon.IntroductionMessage).process model:vpModelIntroProcess
 //vp:rule (*github.com/skycoin/skycoin/src/daemon.DisconnectMessage).process model:vpModelDiscProcess
@@ -138,6 +145,11 @@ func vpModelDisconnect(dm *Daemon, addr string, r error) error {
 //vp:rule (*github.com/skycoin/skycoin/src/daemon.GetBlocksMessage).process model:vpModelGetBlocksProcess
 //vp:rule (*github.com/skycoin/skycoin/src/daemon.GiveBlocksMessage).process model:vpModelGiveBlocksProcess
 //vp:rule (*github.com/skycoin/skycoin/src/daemon.AnnounceTxnsMessage).process model:vpModelAnnTxnsProcess
+//vp:rule (*github.com/skycoin/skycoin/src/daemon.GetPeersMessage).process model:vpModelGetPeersProcess
+//vp:rule (*github.com/skycoin/skycoin/src/daemon.PingMessage).process model:vpModelPingProcess
+//vp:rule (*github.com/skycoin/skycoin/src/daemon.AnnounceBlocksMessage).process model:vpModelAnnBlocksProcess
+//vp:rule (*github.com/skycoin/skycoin/src/daemon.GetTxnsMessage).process model:vpModelGetTxnsProcess
+//vp:rule (*github.com/skycoin/skycoin/src/daemon.GiveTxnsMessage).process model:vpModelGiveTxnsProcess
 //vp:rule (*github.com/skycoin/skycoin/src/daemon.Daemon).Disconnect model:vpModelDisconnect
 //vp:noreplay handlers are recorders
 func vpH_C25_IntroGate() {
@@ -160,7 +172,7 @@ func vpH_C25_IntroGate() {
 		vpAssume(err == nil)
 	}
 	var msg asyncMessage
-	kind := vpLen("messageKind", 0, 6)
+	kind := vpLen("messageKind", 0, 12)
 	switch kind {
 	case 0:
 		msg = &IntroductionMessage{}
@@ -174,6 +186,16 @@ func vpH_C25_IntroGate() {
 		msg = &GiveBlocksMessage{}
 	case 5:
 		msg = &AnnounceTxnsMessage{}
+	case 6:
+		msg = &GetPeersMessage{}
+	case 7:
+		msg = &PingMessage{}
+	case 8, 9:
+		msg = &AnnounceBlocksMessage{}
+	case 10:
+		msg = &GetTxnsMessage{}
+	case 11:
+		msg = &GiveTxnsMessage{}
 	default:
 		msg = vpProbeMessage{}
 	}
